@@ -25,6 +25,8 @@ def id_hashes(seed, tier):
     f = alpha.fillers(seed, "c16id", 3, 2**384)
     out = [b"\x00" * 48, b"\xff" * 48, (ref.q - 1).to_bytes(48, "big"), ref.q.to_bytes(48, "big")]
     out += [v.to_bytes(48, "big") for v in f]
+    # identities whose hash is followed by a long run of x-coordinates that are not on the curve (see C10): 19 and 16 increments
+    out += [(6000296581).to_bytes(48, "big"), (3000005518).to_bytes(48, "big")]
     if tier == "thorough":
         from checks import c10
         out += [s for s, _ in c10.hash_strings_curve(1, seed, "quick")][:12]
@@ -77,11 +79,10 @@ def eval_case(case):
     Q = L.unaff(ident.raw, 1)
     sk = L.buf(L.size["lq_secretkey"])
     L.call("embedded_pairing_lqibe_keygen", sk, msk, ident)
-    if case.get("python"):
-        Pq, _ = ref.hash_to_curve(idh, 1)
-        Qm = ref.pt_mul(Pq, ref.G1_COFACTOR, 1)
-        if Q != Qm:
-            msgs.append("identity point differs from the model")
+    Qm = id_model(idh)          # cached per hash: cofactor * (first curve point at or after the hash)
+    if Q != Qm:
+        msgs.append("identity point differs from the model")
+    if case.get("python") or Q != Qm:
         if L.unaff(sk.raw, 1) != ref.pt_mul(Qm, s % ref.r, 1):
             msgs.append("keygen is not [s]Q_id")
     stream = iter(answers)
